@@ -6,7 +6,7 @@ import impl, gen
 from metapype.model.node import Node
 
 TRUSTED = ["the identity short-cut id(node1)==id(node2) is outside the value model; pairs are distinct objects with distinct nodes"]
-NAMES = ["a", "b", "title", "para", "x"]
+NAMES = ["a", "b", "title", "para", "x", "stmml:unitList", "a:b"]
 
 
 def rand_tree(rng, depth=0, maxdepth=3):
@@ -25,8 +25,17 @@ def one_edit(t, rng):
     nodes = list(gen.nodes_of(t))
     path, n = rng.choice(nodes)
     for _ in range(20):
-        f = rng.choice(["name", "content", "tail", "prefix", "attr", "extras", "nsmap", "child+", "child-", "swap", "attrval", "none-empty", "regroup", "regroup"])
-        if f == "name":
+        f = rng.choice(["name", "content", "tail", "prefix", "attr", "extras", "nsmap", "child+", "child-", "swap", "attrval", "none-empty", "regroup", "regroup", "boundary"])
+        if f == "boundary":
+            # the same characters, split differently between two compared fields: (prefix "p", name "n") vs (no prefix, name "p:n"),
+            # or a colon moving between prefix and name - the two nodes differ in both fields although the spelled tag agrees
+            if n[4] is not None and rng.random() < 0.7:
+                n[1] = n[4] + ":" + n[1]; n[4] = None
+            elif ":" in n[1]:
+                n[4], n[1] = ((n[4] + ":") if n[4] is not None else "") + n[1].split(":", 1)[0], n[1].split(":", 1)[1]
+            else:
+                continue
+        elif f == "name":
             n[1] = n[1] + "X"
         elif f == "content":
             n[2] = (n[2] or "") + "!"
